@@ -1,0 +1,14 @@
+//go:build !verif
+
+// Package verifhook provides trace hooks for the external verification
+// harness. Without the "verif" build tag everything here is a no-op.
+package verifhook
+
+// On reports whether the hooks are compiled in.
+const On = false
+
+// Ev records a trace event. No-op without the verif tag.
+func Ev(name string, args ...any) {}
+
+// Gate is a potentially blocking trace point. No-op without the verif tag.
+func Gate(name string, args ...any) {}
